@@ -243,6 +243,45 @@ pub fn check_c15(case: &ConcCase, history: &History) -> Check {
     Ok(())
 }
 
+/// C07 in concurrent histories, for keys that cannot have left the cache: never deleted, never given a TTL, cache far
+/// from full, no shutdown. Once a creating write of such a key is acknowledged Accepted the key stays readable, so
+/// every put that begins later must be refused with KeyAlreadyExists, and its value must never be read.
+pub fn check_c07(case: &ConcCase, history: &History) -> Check {
+    if history.shutdown_called || case.cfg.max_weight < 4000 || !history.clock_log.is_empty() { return Ok(()); }
+    let writes = writes_of(history);
+    let mut by_key: BTreeMap<u8, Vec<&WriteView>> = BTreeMap::new();
+    for write in &writes { by_key.entry(write.key).or_default().push(write); }
+    for (k, list) in &by_key {
+        if list.iter().any(|write| write.kind == "delete" || write.ttl_ns.is_some()) { continue; }
+        let settled_at = list.iter().filter(|write| write.status == Some(St::Accepted) && write.seen_done > 0).map(|write| write.seen_done).min();
+        let Some(settled_at) = settled_at else { continue };
+        for write in list.iter().filter(|write| write.kind == "put" && write.rec.start > settled_at && !write.err) {
+            if let Some(status) = write.status {
+                ensure!(status == St::RejExists, "C07", "C07/conc/put-on-readable", "thread {} op {}: put of key {} began at stamp {} after a write of that key had been acknowledged Accepted at stamp {} (the key is never deleted, has no time-to-live and the cache is far from full, so it is readable), but it was acknowledged {:?} instead of Rejected(KeyAlreadyExists)", write.rec.thread, write.rec.index, k, write.rec.start, settled_at, status);
+            }
+        }
+    }
+    Ok(())
+}
+
+/// C11 final state: if the only thread that ever wrote key k issued a delete of k as its last write of k, then k must be
+/// absent at quiescence (its queued writes are applied in order; nobody else can re-create it).
+pub fn check_c11_final(history: &History, snapshot: &Snapshot<u64>) -> Check {
+    let writes = writes_of(history);
+    let mut by_key: BTreeMap<u8, Vec<&WriteView>> = BTreeMap::new();
+    for write in &writes { by_key.entry(write.key).or_default().push(write); }
+    for (k, list) in &by_key {
+        let threads: BTreeSet<usize> = list.iter().map(|write| write.rec.thread).collect();
+        if threads.len() != 1 { continue; }
+        let last = list.iter().max_by_key(|write| write.rec.index).unwrap();
+        if last.kind == "delete" && !last.err {
+            let present = snapshot.store.iter().find(|entry| entry.key == *k as u64);
+            ensure!(present.is_none(), "C11", "C11/put-then-delete-leaves-key", "thread {} is the only writer of key {} and its last write of that key (op {}) was a delete (acknowledged {:?}), yet the key is still held at quiescence (id {}): an earlier queued write was applied after the delete or the delete was dropped", last.rec.thread, k, last.rec.index, last.status, present.map(|entry| entry.id).unwrap_or(0));
+        }
+    }
+    Ok(())
+}
+
 pub fn check_progress(history: &History) -> Check {
     if let Some(blocked) = &history.blocked {
         if blocked.starts_with("INCONCLUSIVE") { return Err(Failure::new("INCONCLUSIVE", "inconclusive/slow", blocked.clone())); }
@@ -281,6 +320,8 @@ pub struct ConcStats {
     pub unawaited_same_key: bool,
     pub read_between_delete_and_ack: bool,
     pub guard_held_during_delete: bool,
+    pub puts_on_settled_keys: u64,
+    pub sole_writer_put_then_delete: bool,
     pub eviction_loop_delayed: bool,
     pub swept_during_run: bool,
 }
@@ -330,6 +371,10 @@ pub fn conc_stats(case: &ConcCase, history: &History) -> ConcStats {
         }
     }
     for (_, list) in &by_key {
+        let settled_at = list.iter().filter(|write| write.status == Some(St::Accepted) && write.seen_done > 0).map(|write| write.seen_done).min();
+        if let Some(settled_at) = settled_at { stats.puts_on_settled_keys += list.iter().filter(|write| write.kind == "put" && write.rec.start > settled_at).count() as u64; }
+        let threads: BTreeSet<usize> = list.iter().map(|write| write.rec.thread).collect();
+        if threads.len() == 1 && list.len() >= 2 && list.iter().max_by_key(|write| write.rec.index).map(|write| write.kind == "delete").unwrap_or(false) { stats.sole_writer_put_then_delete = true; }
         for pair in list.windows(2) {
             if pair[1].rec.start < pair[0].seen_done.max(pair[0].rec.end) { stats.unawaited_same_key = true; }
         }
@@ -353,6 +398,8 @@ pub enum ConcProfile {
     /// small cache full of short-lived TTL keys, heavy incoming puts that need several evictions, the admission loop
     /// slowed down while a clock thread makes the sweeper collect keys at the same time
     EvictVsSweep,
+    /// no deletes, no TTLs, no pressure: puts racing in-place upserts, reads and guards on settled keys
+    PutContention,
 }
 
 fn cop_strategy(profile: ConcProfile, max_key: u8) -> BoxedStrategy<COp> {
@@ -370,7 +417,7 @@ fn cop_strategy(profile: ConcProfile, max_key: u8) -> BoxedStrategy<COp> {
         ConcProfile::Shutdown => prop_oneof![6 => put, 3 => upsert, 3 => delete, 5 => read, 1 => Just(COp::AwaitAll), 1 => Just(COp::Shutdown)].boxed(),
         ConcProfile::Reads => prop_oneof![1 => put, 30 => read, 1 => hold].boxed(),
         ConcProfile::Deadlock => prop_oneof![5 => put, 6 => upsert, 3 => delete, 6 => read, 2 => hold, 1 => Just(COp::AwaitAll)].boxed(),
-        ConcProfile::Bursts | ConcProfile::DeleteWindow | ConcProfile::EvictVsSweep => prop_oneof![6 => put, 2 => upsert, 4 => delete, 1 => read].boxed(),
+        ConcProfile::Bursts | ConcProfile::DeleteWindow | ConcProfile::EvictVsSweep | ConcProfile::PutContention => prop_oneof![6 => put, 2 => upsert, 4 => delete, 1 => read].boxed(),
     }
 }
 
@@ -433,7 +480,26 @@ fn evict_vs_sweep_strategy(thorough: bool) -> BoxedStrategy<ConcCase> {
     (cfg, threads, injection, clock).prop_map(|(cfg, threads, injection, clock)| ConcCase { cfg, threads, injection, clock, monitor: true, consumer: ConsumerMode::Free }).boxed()
 }
 
+fn put_contention_strategy(thorough: bool) -> BoxedStrategy<ConcCase> {
+    let key = 0u8..6;
+    let op = prop_oneof![
+        6 => (key.clone(), 0u8..4, any::<bool>(), any::<bool>()).prop_map(|(k, extra, explicit, wait)| COp::Put { k, extra, explicit, ttl: None, wait }),
+        8 => (key.clone(), any::<bool>()).prop_map(|(k, wait)| COp::Upsert { k, down: 0, ttl: TtlReq::Keep, wait }),
+        5 => (read_kind_strategy(), prop::collection::vec(key.clone(), 1..=3)).prop_map(|(kind, keys)| COp::Read { kind, keys }),
+        1 => (key.clone(), 5u16..200).prop_map(|(k, micros)| COp::HoldRef { k, micros }),
+        1 => Just(COp::AwaitAll),
+    ];
+    let threads = prop::collection::vec(prop::collection::vec(op, 10..=(if thorough { 150 } else { 60 })), 3..=8);
+    let delay = prop_oneof![(10u16..2000).prop_map(Delay::Spin), (1u8..3).prop_map(Delay::Yield), (5u16..100).prop_map(Delay::SleepUs)];
+    let site = prop_oneof![Just(Site::PutAfterExistenceCheck as u8), Just(Site::UpsertAfterStoreUpdate as u8), Just(Site::WorkerAfterDequeue as u8), Just(Site::ReadAfterStore as u8), Just(Site::CacheWeightUpdateInEntry as u8), Just(Site::SendBefore as u8)];
+    let injection = (prop::collection::vec((site, 20u8..=200, delay), 0..=3), any::<u64>()).prop_map(|(sites, seed)| Injection { sites, seed: seed | 1 });
+    let cfg = (prop_oneof![Just(1usize), Just(4), Just(64)], prop_oneof![Just(HashMode::Identity), Just(HashMode::Default)])
+        .prop_map(|(cmd_buf, hash)| Cfg { counters: 1000, capacity: 16, max_weight: 4000, shards: 2, cmd_buf, pool: 2, buf: 4, tick_us: 1000, hash, weight_mode: WeightMode::Table(vec![8, 11, 14, 17, 20]), start_ns: 0 });
+    (cfg, threads, injection).prop_map(|(cfg, threads, injection)| ConcCase { cfg, threads, injection, clock: Vec::new(), monitor: false, consumer: ConsumerMode::Free }).boxed()
+}
+
 pub fn conc_case_strategy(profile: ConcProfile, thorough: bool) -> BoxedStrategy<ConcCase> {
+    if profile == ConcProfile::PutContention { return put_contention_strategy(thorough); }
     if profile == ConcProfile::DeleteWindow { return delete_window_strategy(thorough); }
     if profile == ConcProfile::EvictVsSweep { return evict_vs_sweep_strategy(thorough); }
     let (max_threads, max_ops) = match profile {
@@ -462,7 +528,22 @@ pub fn conc_case_strategy(profile: ConcProfile, thorough: bool) -> BoxedStrategy
         ConcProfile::Reads => prop_oneof![Just(ConsumerMode::Free), Just(ConsumerMode::Stalled), Just(ConsumerMode::StalledThenReleased)].boxed(),
         _ => Just(ConsumerMode::Free).boxed(),
     };
-    (cfg, threads, injection_strategy(profile), clock, consumer).prop_map(move |(cfg, threads, injection, clock, consumer)| ConcCase { cfg, threads, injection, clock, monitor: profile != ConcProfile::Reads, consumer }).boxed()
+    (cfg, threads, injection_strategy(profile), clock, consumer).prop_map(move |(cfg, mut threads, injection, clock, consumer)| {
+        if profile == ConcProfile::Bursts {
+            // half of the key range is private to each thread (put -> delete chains whose final state is determined)
+            for (thread, ops) in threads.iter_mut().enumerate() {
+                let private = |k: u8| if k >= 4 { 16 + (thread as u8) * 4 + (k - 4) % 4 } else { k };
+                for op in ops.iter_mut() {
+                    match op {
+                        COp::Put { k, .. } | COp::Upsert { k, .. } | COp::Delete { k, .. } => *k = private(*k),
+                        COp::Read { keys, .. } => for k in keys.iter_mut() { *k = private(*k); },
+                        _ => {}
+                    }
+                }
+            }
+        }
+        ConcCase { cfg, threads, injection, clock, monitor: profile != ConcProfile::Reads, consumer }
+    }).boxed()
 }
 
 /// Checks one executed case for everything the CONC oracles cover. The first failure wins; checks of the property
@@ -471,7 +552,7 @@ pub fn check_conc(case: &ConcCase, run: &ConcRun, property: &str) -> Check {
     let history = &run.history;
     let start_clock = BASE_SECS * 1_000_000_000 + case.cfg.start_ns;
     let ordered: Vec<&str> = {
-        let all = ["progress", "C13", "C11", "C02", "C01", "C05", "C15"];
+        let all = ["progress", "C13", "C11", "C02", "C07", "C01", "C05", "C15"];
         // progress first: a blocked or crashed run has an incomplete history, which the other checkers must not judge
         let mut first: Vec<&str> = vec!["progress"];
         first.extend(all.iter().copied().filter(|name| *name == property && *name != "progress"));
@@ -482,7 +563,8 @@ pub fn check_conc(case: &ConcCase, run: &ConcRun, property: &str) -> Check {
         match name {
             "progress" => check_progress(history)?,
             "C13" => check_c13(history)?,
-            "C11" => check_c11(history)?,
+            "C11" => { check_c11(history)?; if let Some(snapshot) = &run.snapshot { check_c11_final(history, snapshot)?; } }
+            "C07" => check_c07(case, history)?,
             "C02" => check_c02(history, start_clock, property == "C02")?,
             "C01" => check_c01(history, case.cfg.max_weight)?,
             "C05" => { if let Some(snapshot) = &run.snapshot { check_snapshot_consistency(snapshot)?; } }
@@ -508,6 +590,7 @@ pub fn conc_case_result(case: &ConcCase, property: &str, repeats: u32, stall_win
             ("with_injected_delay", stats.delays > 0), ("two_sites_delayed", stats.distinct_sites_delayed >= 2), ("send_blocked_on_full_queue", stats.queue_full_sends),
             ("commands_in_flight_from_two_threads", stats.concurrent_in_flight), ("with_shutting_down_ack", stats.shutting_down_acks > 0), ("with_buffer_handover", stats.handovers > 0),
             ("with_dropped_buffer", stats.drops > 0), ("with_clock_thread", stats.sweeps_during_run), ("with_space_rejection", stats.evicted_or_rejected), ("unawaited_same_key_writes", stats.unawaited_same_key),
+            ("put_on_settled_key", stats.puts_on_settled_keys > 0), ("sole_writer_put_then_delete", stats.sole_writer_put_then_delete),
             ("eviction_loop_ran", stats.eviction_loop_delayed), ("sweeper_collected_during_run", stats.swept_during_run),
             ("read_between_delete_return_and_ack", stats.read_between_delete_and_ack), ("guard_held_while_delete_called", stats.guard_held_during_delete),
         ] {
